@@ -819,8 +819,13 @@ func (h *H) buildFunc(s *spec) flyt.Node {
 		if p.IsError() {
 			core.Problem("%s exec received an error Result as its prep value", s.id)
 		}
-		a := h.on(call{node: s, ph: pExec, attempt: h.attemptOf(s), prepVal: p.Value(), ctx: ctx})
+		att := h.attemptOf(s)
+		a := h.on(call{node: s, ph: pExec, attempt: att, prepVal: p.Value(), ctx: ctx})
 		if a.err != nil {
+			if att%2 == 1 {
+				// a failing attempt may return an error Result NEXT TO its error: it failed all the same
+				return flyt.NewErrorResult(a.err), a.err
+			}
 			return flyt.Result{}, a.err
 		}
 		return flyt.NewResult(a.val), nil
